@@ -188,6 +188,9 @@ func (rs *ReferenceScope) CreateScopeForRecordEvaluation(view *View, recordIndex
 	records[0] = NewReferenceRecord(view, recordIndex, view.FieldLen())
 	for i := range rs.Records {
 		records[i+1] = rs.Records[i]
+		// The field index cache is not safe for concurrent use, and the new scope may be used by another
+		// goroutine than the scope it is derived from.
+		records[i+1].cache = NewFieldIndexCache(rs.Records[i].view.FieldLen(), LimitToUseFieldIndexSliceChache)
 	}
 	return rs.createScope(records)
 }
